@@ -20,7 +20,7 @@ type c16 struct{}
 func init() {
 	register(c16{})
 	expectedProbes["C16"] = []string{"document-mutated-after-load", "root-switched-at-same-location", "call-under-refuse-burst", "meta-schema-expanded-between", "fresh-process-reference", "history>=6",
-		"external-document-reloaded", "ref-to-built-in-meta-schema", "package-loader-reassigned-and-used", "entry:ExpandSpec", "entry:ExpandSchema", "entry:ResolveRefWithBase"}
+		"external-document-reloaded", "ref-to-built-in-meta-schema", "package-loader-reassigned-and-used", "nil-options", "entry:ExpandSpec", "entry:ExpandSchema", "entry:ResolveRefWithBase"}
 	SingleOpMain = singleOpMain
 }
 
@@ -156,7 +156,11 @@ func (c16) Gen(r *sim.RNG, tier string, idx int) *Scenario {
 		case x < 3:
 			sc.Ops = append(sc.Ops, Op{Entry: []string{"MetaSwagger", "MetaDraft04", "MetaDraft04"}[r.Intn(3)], World: wi})
 		case x < 8:
-			sc.Ops = append(sc.Ops, Op{Entry: "ExpandSpec", World: wi, Base: RandBase(r, w), Opts: Opts{Skip: r.Bool(0.2), Continue: r.Bool(0.2), Absolute: r.Bool(0.3)}})
+			eop := Op{Entry: "ExpandSpec", World: wi, Base: RandBase(r, w), Opts: Opts{Skip: r.Bool(0.2), Continue: r.Bool(0.2), Absolute: r.Bool(0.3)}}
+			if r.Intn(4) == 0 {
+				eop.Base, eop.Opts = "<nil-options>", Opts{} // ExpandSpec(doc, nil)
+			}
+			sc.Ops = append(sc.Ops, eop)
 		case x < 10:
 			els := elementOps(w, r, 0, false)
 			if len(els) > 0 {
@@ -164,6 +168,9 @@ func (c16) Gen(r *sim.RNG, tier string, idx int) *Scenario {
 				op.World = wi
 				op.Cache = "nil"
 				op.Base = RandBase(r, w)
+				if op.Entry == "ExpandSchemaWithBasePath" && r.Intn(3) == 0 {
+					op.Base, op.Opts = "<nil-options>", Opts{}
+				}
 				sc.Ops = append(sc.Ops, op)
 			}
 		default:
@@ -352,6 +359,9 @@ func (c16) Run(sc *Scenario) *Verdict {
 			burst = true
 		}
 		v.probe("entry:" + op.Entry)
+		if op.Base == "<nil-options>" {
+			v.probe("nil-options")
+		}
 		kinds = append(kinds, op.Entry)
 		store := sim.NewStore(w.Docs, op.Faults)
 		res := ExecOp(op, &Env{World: w, Store: store, OrderKey: key, Budget: StepBudgetMeta})
